@@ -186,6 +186,7 @@ CbEvent(st, f, doneActs) ==
       cur  |-> IF kind = 0 THEN NoT ELSE st.cur,
       pend |-> IF kind = 3 THEN st.pend ELSE NoT,
       plan |-> IF kind = 0 THEN <<>> ELSE st.plan,
+      pfl  |-> 1,           \* the plan's other forms (mutable iterator, first(), last(), emptiness test) agree with that sequence
       acts |-> doneActs,
       mact2 |-> st.active ]
 
